@@ -455,7 +455,7 @@ class CliApplication:
         self.syntax = getattr(args, 'syntax', "ios")
         self.output_format = getattr(args, 'output', "")
         self.file_list = getattr(args, 'file', [""])
-        self.diff_method = getattr(args, 'diff_method', "diff")
+        self.diff_method = getattr(args, 'method', "diff")
         self.all_children = getattr(args, 'all_children', False)
         self.unique = getattr(args, 'unique', False)
         self.ipgrep_file = getattr(args, 'ipgrep_file', None)
@@ -627,7 +627,8 @@ class CliApplication:
     def diff_command(self) -> None:
         diff = Diff(
                    open(self.file_list[0]).read(),
-                   open(self.file_list[1]).read()
+                   open(self.file_list[1]).read(),
+                   syntax=self.syntax,
                )
 
         if self.diff_method == "diff":
